@@ -130,6 +130,8 @@ pub broadcast axiom fn ax_cos_sin(x: real) ensures #[trigger] r_cos(x) * r_cos(x
 pub broadcast axiom fn ax_cos_bound(x: real) ensures -1real <= #[trigger] r_cos(x) <= 1real;
 pub broadcast axiom fn ax_sin_bound(x: real) ensures -1real <= #[trigger] r_sin(x) <= 1real;
 pub axiom fn ax_cos_sin_q1(x: real) ensures 0real < x && x * 2real < r_pi() ==> r_cos(x) > 0real && r_sin(x) > 0real;
+// pi/2 < x < 3pi/2  ==>  cos x < 0
+pub axiom fn ax_cos_q23(x: real) ensures r_pi() < x * 2real && x * 2real < 3real * r_pi() ==> r_cos(x) < 0real;
 pub axiom fn ax_pi() ensures 31415real < r_pi() * 10000real < 31416real, f64_real(PI) == r_pi();
 pub broadcast axiom fn ax_tanh(x: real) ensures -1real < #[trigger] r_tanh(x) < 1real;
 pub broadcast axiom fn ax_sqrt(x: real) ensures x >= 0real ==> #[trigger] r_sqrt(x) >= 0real && r_sqrt(x) * r_sqrt(x) == x;
